@@ -130,6 +130,24 @@ Theorem C13_iter_teardown_completes_one_client_one_iterator : forall sched,
   it_freed z = true /\ it_uaf z = false.
 Proof. exact iterator_repaired_teardown_completes. Qed.
 
+(* the same for a COMPLETE walk of one iterator over TWO records (Next / use / advance with the deferred
+   rfbDecrClientRef(prev) / use / Next = NULL / rfbReleaseClientIterator) while both connections end at arbitrary moments:
+   no freed memory touched, nobody stuck, and the round-robin continuation ends with both records freed *)
+Theorem C13_no_use_after_free_iter_walk_two_clients_one_iterator : forall sched,
+  let s := run iw_st (iw_step true) sched iw_init in
+  iw_uaf s = false /\ (iw_final s = true \/ exists t, t < 3 /\ enabled iw_st (iw_step true) t s = true) /\
+  (let z := run iw_st (iw_step true) iw_finishing s in iw_final z = true /\ iw_fr0 z = true /\ iw_fr1 z = true /\ iw_uaf z = false).
+Proof. exact iterator_walk_two_records_safe. Qed.
+
+Example C13_iter_walk_nonvacuous :
+  let s := run iw_st (iw_step true) [0;0;0; 1;1; 0;0;0; 2;2; 0;0;0;0; 1;1;2;2] iw_init in iw_final s = true /\ iw_uaf s = false.
+Proof. exact iterator_walk_nonvacuous. Qed.
+
+(* not a finding: what the previous theorem rests on - a teardown that does not wait for the references is unsafe *)
+Theorem C13_iter_walk_needs_the_wait :
+  iw_uaf (run iw_st (iw_step false) [0;0;0; 1;1;1; 0] iw_init) = true.
+Proof. exact iterator_walk_needs_the_wait. Qed.
+
 (* regression witness, protocol BEFORE 97f9e93: finding C13-N2 (fixed) *)
 Theorem C13_no_use_after_free_iter_before_fix_refuted : it_uaf (run it_st (it_step false) it_witness it_init) = true.
 Proof. exact iterator_use_after_free. Qed.
@@ -224,14 +242,14 @@ Proof. exact subtract_after_send_loses_mark. Qed.
        rfbNewFramebuffer returns holding its sendMutex, the client's own thread blocks for ever in
        rfbClientConnectionGone (LOCK(cl->sendMutex), rfbserver.c:669): not a cycle, nobody can move *)
 Theorem C13_newfb_leaves_sendmutex_locked_refuted :
-  let s := run nf_st (nf_step 0) nf_gone_witness (nf_init 0) in
+  let s := run nf_st (nf_step false 0) nf_gone_witness (nf_init 0) in
   nf_pcA s = NF_APP_DONE /\ nf_send s = 1 /\ nf_pcB s = 3 /\ nf_freed s = false /\ nf_ok s = false /\
-  forall t, enabled nf_st (nf_step 0) t s = false.
+  forall t, enabled nf_st (nf_step false 0) t s = false.
 Proof. exact newfb_leaves_sendmutex_locked. Qed.
 
 (* (b) a connection accepted in between gets an UNLOCK of a sendMutex that was never locked *)
 Theorem C13_newfb_unlocks_unlocked_mutex_refuted :
-  nf_badunlock (run nf_st (nf_step 1) nf_new_witness (nf_init 1)) = true.
+  nf_badunlock (run nf_st (nf_step false 1) nf_new_witness (nf_init 1)) = true.
 Proof. exact newfb_unlocks_unlocked_mutex. Qed.
 
 (* what does hold: when the client neither goes nor arrives while rfbNewFramebuffer runs, the bracket is balanced and
@@ -240,3 +258,12 @@ Theorem C13_newfb_balanced_partial : forall m sched, m < 2 ->
   let s := run nf_st (nf_step_serial m) sched (nf_init m) in
   nf_ok s = true /\ (nf_final s = true \/ exists t, t < 2 /\ enabled nf_st (nf_step_serial m) t s = true).
 Proof. exact newfb_balanced_when_serialised. Qed.
+
+(* with notes/fix_C13_5.diff (NOT in /repo: pass 1 keeps a reference on, and remembers, every client it locks; exactly
+   those are unlocked after pass 3): for EVERY schedule of both modes - the client goes or arrives at any moment - no
+   mutex misuse, nobody stuck, and the round-robin continuation ends with rfbNewFramebuffer returned and the mutex free *)
+Theorem C13_newfb_fixed_balanced_one_client : forall m sched, m < 2 ->
+  let s := run nf_st (nf_step true m) sched (nf_init m) in
+  nf_ok s = true /\ (nf_final s = true \/ exists t, t < 2 /\ enabled nf_st (nf_step true m) t s = true) /\
+  (let z := run nf_st (nf_step true m) nf_finishing s in nf_final z = true /\ nf_send z = 0 /\ nf_badunlock z = false).
+Proof. exact newfb_fixed_balanced. Qed.
